@@ -6,7 +6,7 @@ from sa.loader import AnalysisError, norm, walk_local
 from sa.shapes import consumption, has_unknown, flat, Shaper
 from sa.cfg import cfg_of
 from sa.spec import avro_wire as spec
-from .common import analysis, tokens, names_in, cmp_texts, value_sources, true_facts
+from .common import analysis, tokens, names_in, cmp_texts, value_sources, true_facts, assigned_values
 from .c05 import generators, gen_shape, block_loop, block_writer_shape, block_reader_shape, compress_exprs, raw_var_sources, _enclosing
 
 PROP = "C04"
@@ -232,8 +232,37 @@ def run(ctx):
         "self.codec": lambda t: t == f"self.metadata.get('{spec.CODEC_KEY}', 'null')",
         "self.writer_schema": lambda t: t.startswith("parse_schema(self._schema, self._named_schemas['writer']"),
     }
+    # locals that mirror a field (`metadata = ...; self.metadata = metadata`, `x = self.x = ...`) are read as the field
+    import copy as _copy
+
+    mirror = {}
+    for n in walk_local(rh.node):
+        if isinstance(n, ast.Assign):
+            locs = [t.id for t in n.targets if isinstance(t, ast.Name)]
+            flds = [norm(t) for t in n.targets if isinstance(t, ast.Attribute) and norm(t.value) == "self"]
+            if isinstance(n.value, ast.Name) and flds and len(assigned_values(rh.node, n.value.id)) == 1:
+                mirror[n.value.id] = flds[0]
+            for l_ in locs:
+                if flds and len(assigned_values(rh.node, l_)) == 1:
+                    mirror[l_] = flds[0]
+                elif isinstance(n.value, ast.Attribute) and norm(n.value.value) == "self" and len(assigned_values(rh.node, l_)) == 1:
+                    mirror[l_] = norm(n.value)
+
+    class _Fields(ast.NodeTransformer):
+        def visit_Name(self, n):
+            if isinstance(n.ctx, ast.Load) and n.id in mirror:
+                return ast.copy_location(ast.parse(mirror[n.id], mode="eval").body, n)
+            return n
+
+    def _field_text(v, attr):
+        if isinstance(v, ast.Name) and mirror.get(v.id) == attr:
+            vs = assigned_values(rh.node, v.id)
+            if len(vs) == 1:
+                v = vs[0]
+        return norm(_Fields().visit(_copy.deepcopy(v)))
+
     for attr, pred in want.items():
-        vals = [norm(n.value) for n in walk_local(rh.node) if isinstance(n, ast.Assign) and any(norm(t) == attr for t in n.targets)]
+        vals = [_field_text(n.value, attr) for n in walk_local(rh.node) if isinstance(n, ast.Assign) and any(norm(t) == attr for t in n.targets)]
         ctx.check("C04.R2", f"reader: {attr} derived from the decoded header only", len(vals) == 1 and pred(vals[0]), rh.where(), f"_read_header: {attr} = {vals}", f"{attr} is not derived from the file's own header")
 
     # ---- R3 writer typestate --------------------------------------------------------------
